@@ -1,0 +1,15 @@
+//go:build verif
+
+package syncer
+
+// VerifInflightSubnet returns a copy of the per-subnet in-flight RPC counters, read under
+// inflightMu. Verification only (build tag verif); it has no effect on the syncer.
+func (s *Syncer) VerifInflightSubnet() map[string]int {
+	s.inflightMu.Lock()
+	defer s.inflightMu.Unlock()
+	m := make(map[string]int, len(s.inflightSubnet))
+	for k, v := range s.inflightSubnet {
+		m[k] = v
+	}
+	return m
+}
